@@ -663,3 +663,101 @@ pub(crate) fn run_c17api(_replay: Option<&str>) -> Report {
     rep.machinery_error = take_machinery();
     rep
 }
+
+/// C16, established dynamic neighbours: "a dynamic neighbour's record disappears with its last
+/// connection" also when that connection was Established and ended in a way that starts graceful
+/// restart helper mode (the BFS part of C16 never completes an OPEN exchange).
+pub(crate) fn run_c16dyn(_replay: Option<&str>) -> Report {
+    let mut rep = Report::new("C16", "hd-c16dyn");
+    rep.rule = "a dynamic neighbour (peer group with / without graceful restart, prefix 127.0.8.0/24) completes the OPEN exchange (with / without the GR capability), announces a route, and its connection ends (TCP close | Cease NOTIFICATION); afterwards Global.peers must not hold a record for its address, and a new connection from the address is admitted as a dynamic neighbour again".into();
+    let rt = runtime();
+    for group_gr in [false, true] {
+        for peer_gr in [false, true] {
+            for cease in [false, true] {
+                let case = format!("dynamic#group-gr={group_gr}#peer-gr={peer_gr}#{}", if cease { "cease" } else { "tcp-close" });
+                let r: Result<Option<String>, String> = rt.block_on(async {
+                    let addr = IpAddr::V4(Ipv4Addr::new(127, 0, 8, 213));
+                    let d = Daemon::new(1);
+                    {
+                        let mut g = d.global.write().await;
+                        g.peer_group.insert(
+                            "dyn".to_string(),
+                            PeerGroup {
+                                as_number: 65001,
+                                dynamic_peers: vec![DynamicPeer { prefix: "127.0.8.0/24".parse().unwrap() }],
+                                route_server_client: false,
+                                holdtime: Some(90),
+                                local_asn: 0,
+                                passive: true,
+                                route_reflector: RouteReflectorConfig::default(),
+                                multihop_ttl: None,
+                                ttl_security: None,
+                                auth_password: None,
+                                connect_retry_time: None,
+                                families: [(Family::IPV4, 0u8)].into_iter().collect(),
+                                send_max: FnvHashMap::default(),
+                                graceful_restart: if group_gr { Some(peer::GrPeerConfig { restart_time: 90, notification_enabled: false, families: vec![Family::IPV4] }) } else { None },
+                                llgr: None,
+                            },
+                        );
+                    }
+                    let mut c = connect(&d, addr, crate::fsm::Role::Passive).await?.ok_or("the dynamic neighbour was refused")?;
+                    let mut caps = vec![packet::Capability::MultiProtocol(Family::IPV4), packet::Capability::FourOctetAsNumber(65001)];
+                    if peer_gr {
+                        caps.push(packet::Capability::GracefulRestart { flags: 0, restart_time: 120, families: vec![(Family::IPV4, 0x80)] });
+                    }
+                    if !c.establish(65001, 0x0a000001, 90, caps).await? {
+                        return Err("the dynamic neighbour's session did not establish".into());
+                    }
+                    let upd = bgp::Message::Update(bgp::Update::Reach {
+                        family: Family::IPV4,
+                        entries: vec![packet::PathNlri { path_id: 0, nlri: packet::Nlri::V4(packet::bgp::Ipv4Net { addr: Ipv4Addr::new(10, 77, 0, 0), mask: 24 }) }],
+                        nexthop: Some(bgp::Nexthop::V4(Ipv4Addr::new(127, 0, 8, 213))),
+                        attr: Arc::new(vec![packet::Attribute::new_with_value(packet::Attribute::ORIGIN, 0).unwrap(), packet::Attribute::new_with_bin(packet::Attribute::AS_PATH, vec![2, 1, 0, 0, 0xfd, 0xe9]).unwrap()]),
+                    });
+                    if !(c.send(&upd).await && c.barrier().await) {
+                        return Err("the session ended on a plain UPDATE".into());
+                    }
+                    if cease {
+                        c.send(&bgp::Message::Notification(packet::Notification::CeaseAdminShutdown)).await;
+                        c.wait_end(false).await;
+                    } else {
+                        c.wait_end(true).await;
+                    }
+                    // timer tasks / effects of the disconnect
+                    for _ in 0..50 {
+                        tokio::time::sleep(Duration::from_micros(200)).await;
+                    }
+                    let still = d.global.read().await.peers.contains_key(&addr);
+                    if still {
+                        return Ok(Some(format!("record-left-behind: the connection has ended, Global.peers still holds a record for {addr}")));
+                    }
+                    match connect(&d, addr, crate::fsm::Role::Passive).await? {
+                        Some(mut c2) => {
+                            c2.wait_end(true).await;
+                        }
+                        None => return Ok(Some("readmission-refused: a new connection from inside the dynamic prefix is refused after the first session ended".into())),
+                    }
+                    Ok(None)
+                });
+                rep.evaluations += 1;
+                match r {
+                    Err(e) => {
+                        rep.machinery_error = Some(format!("c16 dynamic ({case}): {e}"));
+                        return rep;
+                    }
+                    Ok(None) => {}
+                    Ok(Some(msg)) => {
+                        let clause = msg.split(':').next().unwrap_or("").to_string();
+                        rep.violation(Violation { sig: format!("C16/dynamic-established/{clause}"), what: format!("{case}: {msg}"), case });
+                    }
+                }
+            }
+        }
+    }
+    rep.exhaustive = true;
+    if rep.machinery_error.is_none() {
+        rep.machinery_error = take_machinery();
+    }
+    rep
+}
